@@ -543,6 +543,11 @@ def quit_cases():
                    [f"on f{i}.in 2 : rd f{i}" for i in range(3) if str(i) in q] + \
                    ["do reg f0 100 ; reg f1 100 ; reg f2 100 ; wr f0 1 ; wr f1 1 ; wr f2 1 ; trel t9 50000000", "main", "main", "do wr f0 1 ; wr f1 1 ; wr f2 1", "main", "main"]
             cases.append((f"quit-{METHOD_NAME[m]}-batch-fd-{q}", x + body))
+            # the same, but between the two runs the application consumes the input itself: whatever was collected but not dispatched in
+            # the first run must not be dispatched in the second (the condition no longer holds at that run's poll)
+            body2 = body[:-6] + ["do reg f0 100 ; reg f1 100 ; reg f2 100 ; wr f0 1 ; wr f1 1 ; wr f2 1 ; trel t9 50000000", "main",
+                                 "do rd f0 ; rd f1 ; rd f2", "main", "main"]
+            cases.append((f"quit-{METHOD_NAME[m]}-batch-fd-{q}-drained", x + body2))
         for vi, hs in enumerate([
                 ["on k1 1 : kreg k1", "on k2 1 : quit"],
                 ["on k1 1 : kreg k1", "on k2 1 : quit ; kreg k2"],
@@ -599,6 +604,6 @@ def erronly_cases():
 
 
 ENUM_RULE = ("; plus the ENUMERATED families 'erronly' (24 scenarios: a descriptor whose only handler is the error handler, reached and left by every "
-             "transition, hang-up before/after, 4 methods) and 'quit' (88 scenarios: iv_quit outside iv_main; iv_quit from a descriptor handler while "
+             "transition, hang-up before/after, 4 methods) and 'quit' (104 scenarios: iv_quit outside iv_main; iv_quit from a descriptor handler while "
              "other descriptors of the same iteration are undelivered, from a task while later and deferred tasks of the round are pending, from an iv_event handler while other posted events of the batch are undelivered, and from an iv_event_raw handler while other raw objects posted in the same batch are undelivered, then "
              "iv_main re-entered: nothing due may be lost across the return; 4 methods)")
